@@ -1,3 +1,4 @@
+import RsyncModel.RecvTie
 import RsyncModel.MapFile
 import RsyncModel.PureTie
 import RsyncModel.Properties.C17
@@ -155,5 +156,18 @@ theorem source_window_no_panic (ms : Gen.Pure.mapStruct) (file : Wire.Bytes) (of
     (inv : MapFile.Inv ms file) (hl : 0 < l.toInt) (h0 : 0 ≤ offset) (hin : offset + l.toInt ≤ (file.length : Int)) :
     ∃ ms', Gen.Pure.ptr ms offset l file = .ok ((file.drop offset.toNat).take l.toInt.toNat, ms') ∧ MapFile.Inv ms' file :=
   MapFile.ptr_correct ms file offset l inv hl h0 hin
+
+
+/-- **no token stream makes the receiver's loop panic**: the loop of `receiveData` and `recvToken`,
+translated from /repo on every run, return a value or an error for every input byte stream, every
+validated header and every basis — never `panic` (no negative `make`, no slice out of range, no
+runaway loop) -/
+theorem source_receiver_loop_no_panic (h : PureTie.Head32) (hok : h.ok) (cs : Nat) (basis : Wire.Bytes) (hasBasis : Bool)
+    (inp acc : Wire.Bytes) :
+    Gen.Pure.recvLoop inp basis hasBasis h.count h.bl h.rem acc ≠ .panic := by
+  rw [RecvTie.recvLoop_tied h hok cs basis hasBasis inp acc]
+  cases Recv.recvTokens (h.toHead cs) (if hasBasis then some basis else none) inp acc with
+  | error e => simp
+  | ok v => simp
 
 end C08
